@@ -92,6 +92,7 @@ fn check_set(c: &Canon, locus: &str, case: &str, out: &mut WorkerOut) -> Option<
 
 impl UnitRunner for C14 {
   fn unit(&mut self, _payload: &str, unit: u64, out: &mut WorkerOut) {
+    if _payload == "contexts" { return context_unit(unit, out); }
     let ui = (unit / 512) as usize;
     let ai = (unit % 512) as usize;
     if ui >= self.us.len() { return; }
@@ -354,7 +355,41 @@ impl Check for C14 {
     let us: Vec<(String, Vec<String>)> = self.us.iter().map(|u| (u.name.to_string(), u.elems.iter().map(|e| e.to_string()).collect())).collect();
     let ml = self.maxlen();
     rep.describe = Some(Box::new(move |_p, unit| { let ui = (unit / 512) as usize; let (n, e) = &us[ui.min(us.len() - 1)]; let seqs = sequences(e.len(), ml); let s = seqs.get((unit % 512) as usize).cloned().unwrap_or_default(); (format!("sets:{}", n), format!("a := {{{}}} with some b / operator", s.iter().map(|i| e[*i].clone()).collect::<Vec<_>>().join(","))) }));
-    drive_ranges(cfg, rep, range_jobs("", nu * 512, 1));
+    let mut jobs = range_jobs("", nu * 512, 1);
+    jobs.extend(range_jobs("contexts", 8, 1));
+    drive_ranges(cfg, rep, jobs);
     if rep.out.nontrivial < 1000 { rep.vacuity.push("too few judged statements".into()); }
   }
+}
+
+/// Set literals, memberships and set operators whose operands are bound locally (function parameters, match-arm bindings, comprehension
+/// generators; every local shadowed by a global of another value).
+fn context_unit(unit: u64, out: &mut WorkerOut) {
+  use crate::ctx::{lv, Tpl};
+  let kinds: [(&str, [&str; 4]); 4] = [("f64", ["1", "2", "3", "9"]), ("u8", ["1u8", "2u8", "3u8", "9u8"]), ("string", ["\"a\"", "\"b\"", "\"c\"", "\"z\""]), ("r64", ["1/2", "2/4", "1/3", "9/1"])];
+  let (kind, e) = kinds[(unit % 4) as usize];
+  let sets = unit / 4 == 1;
+  let mut s = Session::new();
+  // shadows
+  for d in [format!("a := {}", e[3]), format!("b := {}", e[3]), format!("p := {{{}}}", e[3]), format!("q := {{{}}}", e[3])] { s.run(&d); }
+  let defs = [format!("ga := {}", e[0]), format!("gb := {}", e[1]), format!("gp := {{{},{}}}", e[0], e[1]), format!("gq := {{{},{}}}", e[1], e[2])];
+  for d in &defs { if !s.run(d).is_value() { out.count("context_setup_rejected"); return; } }
+  let sk = format!("{{{}}}", kind);
+  let forms: Vec<(&str, Vec<(&str, &str, String)>, bool)> = if sets {
+    // set-valued operands: function parameters and match bindings only
+    vec![("p ∪ q", vec![("p", "gp", sk.clone()), ("q", "gq", sk.clone())], false), ("p ∩ q", vec![("p", "gp", sk.clone()), ("q", "gq", sk.clone())], false), ("p ∖ q", vec![("p", "gp", sk.clone()), ("q", "gq", sk.clone())], false),
+      ("p Δ q", vec![("p", "gp", sk.clone()), ("q", "gq", sk.clone())], false), ("p ⊆ q", vec![("p", "gp", sk.clone()), ("q", "gq", sk.clone())], false), ("p ⊊ q", vec![("p", "gp", sk.clone()), ("q", "gq", sk.clone())], false),
+      ("q ⊇ p", vec![("p", "gp", sk.clone()), ("q", "gq", sk.clone())], false), ("set/size(p)", vec![("p", "gp", sk.clone())], false), ("{x | x <- p}", vec![("p", "gp", sk.clone())], false), ("{x | x <- p, x ∈ q}", vec![("p", "gp", sk.clone()), ("q", "gq", sk.clone())], false)]
+  } else {
+    vec![("{a, b}", vec![("a", "ga", kind.to_string()), ("b", "gb", kind.to_string())], true), ("{b, a, b}", vec![("a", "ga", kind.to_string()), ("b", "gb", kind.to_string())], true), ("{a}", vec![("a", "ga", kind.to_string())], true),
+      ("a ∈ gp", vec![("a", "ga", kind.to_string())], true), ("a ∉ gq", vec![("a", "ga", kind.to_string())], true), ("b ∈ {a, b}", vec![("a", "ga", kind.to_string()), ("b", "gb", kind.to_string())], true),
+      ("{a, b} ∪ gq", vec![("a", "ga", kind.to_string()), ("b", "gb", kind.to_string())], true), ("gp ∖ {a}", vec![("a", "ga", kind.to_string())], true), ("{x | x <- gp, x == a}", vec![("a", "ga", kind.to_string())], true)]
+  };
+  let tpls: Vec<Tpl> = forms.iter().map(|(f, vs, scalar)| {
+    let mut top = f.to_string();
+    // whole-token replacement of the local names by the globals that hold the operands
+    for (l, g, _) in vs { let mut o = String::new(); let mut w = String::new(); for ch in top.chars().chain(std::iter::once(' ')) { if ch.is_alphanumeric() || ch == '/' { w.push(ch); } else { if w == *l { o.push_str(g); } else { o.push_str(&w); } w.clear(); o.push(ch); } } top = o.trim_end().to_string(); }
+    Tpl { local: f.to_string(), top, vars: vs.iter().map(|(l, g, k)| lv(l, g, k)).collect(), scalar_operands: *scalar, set_ok: *scalar, tag: format!("{}:{}", f, kind), fn_ok: *scalar && !f.contains("gp") && !f.contains("gq") }
+  }).collect();
+  crate::ctx::judge_templates("C14", &mut s, &tpls, 0, &format!("a, b := {} ; p, q := {{{}}} (globals); {}", e[3], e[3], defs.join("; ")), out);
 }
